@@ -1,13 +1,26 @@
 import SigpyVerif.Model.C09
 import SigpyVerif.Lemmas.Py
+set_option linter.unusedTactic false
+set_option linter.unreachableTactic false
 /-
   C09 — Resize/shift/resample/block functions move exactly the documented elements.
   Property theorems only (helper lemmas live in `Lemmas/`).  Everything is stated about the
   definitions in `Gen.*` that the translator regenerates from sigpy on every run, or about the
   hand-written model in `Model/C09.lean`, which the correspondence check ties to the code.
+  This file: one axis at a time + membership in the block loop nests.  N-d / whole-array statements:
+  `Lemmas/C09.lean` (row-major enumeration), `Props/C09Nd.lean` (resize), `Props/C09Samp.lean`
+  (down/upsample), `Props/C09Shift.lean` (flip, circshift), `Props/C09Block.lean` (gather destinations
+  unique, scatter multiplicities).  Proofs about generated formulas compare them as integers
+  (`same_arith`), so a commuted / re-associated sum in the source still checks and a different value
+  does not.
 -/
 namespace SigpyVerif.C09
 open SigpyVerif
+
+/-- closes `f a = f b` for generated formulas whose arguments agree as integers (the source may
+    commute or re-associate a sum); fails when the values differ -/
+macro "same_arith" : tactic =>
+  `(tactic| first | rfl | (congr 1 <;> ring) | (congr 2 <;> ring))
 
 /-! ### resize -/
 
@@ -37,7 +50,11 @@ theorem resize_transpose (i o si so k j : Int) :
 /-- The default shift of one side is the swapped default of the other. -/
 theorem resize_default_swap (i o : Int) :
     Gen.resizeIshiftDefault i o = Gen.resizeOshiftDefault o i := by
-  unfold Gen.resizeIshiftDefault Gen.resizeOshiftDefault; rfl
+  -- robust to commuted / re-associated arithmetic in the source: compared as integers, not syntactically
+  unfold Gen.resizeIshiftDefault Gen.resizeOshiftDefault
+  first
+  | rfl
+  | (unfold pyMax; simp only [pyDiv_of_pos _ (show (0 : Int) < 2 by decide)]; split_ifs <;> omega)
 
 example : resizeSrc1 5 8 (Gen.resizeIshiftDefault 5 8) (Gen.resizeOshiftDefault 5 8) 2 = some 0 := by decide
 example : resizeSrc1 7 4 (Gen.resizeIshiftDefault 7 4) (Gen.resizeOshiftDefault 7 4) 0 = some 1 := by decide
@@ -64,8 +81,9 @@ theorem roll_in_range (n s k : Int) (hn : 0 < n) : 0 ≤ rollSrc n s k ∧ rollS
     `s, s+f, s+2f, … < i` that the slice `s::f` selects. -/
 theorem downsampleLen_spec (i f s k : Int) (hf : 0 < f) :
     (0 ≤ k ∧ s + k * f < i) ↔ (0 ≤ k ∧ k < Gen.downsampleLen i f s) := by
-  unfold Gen.downsampleLen
-  rw [pyDiv_of_pos _ hf]
+  have key : Gen.downsampleLen i f s = pyDiv (i - s + f - 1) f := by
+    unfold Gen.downsampleLen; same_arith
+  rw [key, pyDiv_of_pos _ hf]
   constructor
   · rintro ⟨h0, h1⟩
     refine ⟨h0, ?_⟩
@@ -76,7 +94,10 @@ theorem downsampleLen_spec (i f s k : Int) (hf : 0 < f) :
     have : (k + 1) * f ≤ i - s + f - 1 := (Int.le_ediv_iff_mul_le hf).mp (by omega)
     nlinarith
 
-theorem upsampleLen_eq_downsampleLen (i f s : Int) : Gen.upsampleLen i f s = Gen.downsampleLen i f s := rfl
+theorem upsampleLen_eq_downsampleLen (i f s : Int) : Gen.upsampleLen i f s = Gen.downsampleLen i f s := by
+  -- the two `__init__` sites may write the same sum in a different order
+  unfold Gen.upsampleLen Gen.downsampleLen
+  same_arith
 
 /-- upsample's membership test recovers exactly the index downsample took: `(s + k f - s)` is a
     non-negative multiple of `f` with quotient `k`; so `downsample ∘ upsample = id` and
@@ -103,8 +124,8 @@ theorem up_test_is_sample (f s d : Int) (hf : 0 < f) (h0 : 0 ≤ d - s) (h1 : py
 theorem numBlks_maximal (N B S : Int) (hS : 0 < S) (hB : B ≤ N) :
     (∀ n, 0 ≤ n → n < Gen.numBlks N B S → n * S + B ≤ N) ∧
     N < Gen.numBlks N B S * S + B ∧ 0 < Gen.numBlks N B S := by
-  unfold Gen.numBlks
-  rw [pyDiv_of_pos _ hS]
+  have key : Gen.numBlks N B S = pyDiv (N - B + S) S := by unfold Gen.numBlks; same_arith
+  rw [key, pyDiv_of_pos _ hS]
   have hle : (N - B + S) / S * S ≤ N - B + S := Int.ediv_mul_le _ (by omega)
   have hlt : N - B + S < ((N - B + S) / S + 1) * S := by
     have := Int.lt_ediv_add_one_mul_self (N - B + S) hS
@@ -118,7 +139,11 @@ theorem numBlks_maximal (N B S : Int) (hS : 0 < S) (hB : B ≤ N) :
     omega
 
 theorem numBlks_sites_agree (i b s : Int) :
-    Gen.a2bNumBlks i b s = Gen.numBlks i b s ∧ Gen.b2aNumBlks i b s = Gen.numBlks i b s := ⟨rfl, rfl⟩
+    Gen.a2bNumBlks i b s = Gen.numBlks i b s ∧ Gen.b2aNumBlks i b s = Gen.numBlks i b s := by
+  -- the three `num_blks` sites (block.py, ArrayToBlocks, BlocksToArray) may commute / re-associate
+  -- `i - b + s`; a different value (e.g. `i - b + s - 1`) does not check
+  unfold Gen.a2bNumBlks Gen.b2aNumBlks Gen.numBlks
+  constructor <;> same_arith
 
 /-- `_array_to_blocks1`: block `(n, b)` reads array index `n·S + b` — exactly the window starting
     at each stride multiple — for every batch, and nothing else is written. -/
@@ -179,8 +204,10 @@ theorem b2a1_transpose_a2b1 (osh ish osh' ish' : Int → Int) (batch B S N : Int
     `Downsample`/`Upsample` advertise, `(n - s + f - 1) // f`, whenever that is non-negative. -/
 theorem sliceLen_eq_advertised (n s f : Int) (hf : 0 < f) (h : 0 ≤ Gen.downsampleLen n f s) :
     (sliceLen n s f : Int) = Gen.downsampleLen n f s := by
-  unfold sliceLen pyRange Gen.downsampleLen at *
-  rw [pyDiv_of_pos _ hf] at h ⊢
+  have key : Gen.downsampleLen n f s = pyDiv (n - s + f - 1) f := by
+    unfold Gen.downsampleLen; same_arith
+  rw [key, pyDiv_of_pos _ hf] at h ⊢
+  unfold sliceLen pyRange
   rw [if_neg (by omega)]
   simp only [List.length_map, List.length_range]
   rw [Int.toNat_of_nonneg h]
